@@ -703,3 +703,33 @@ def decide_length_lemma(ctx, rule, module, fname, arg_index) -> bool:
     else:
         _LENGTH_LEMMAS.pop(fname, None)
     return ok_all and bool(seen)
+
+
+def sequence_at_position(t, L):
+    """the sequence of which `t` is the element at the current position of loop L, in the ways of walking several sequences
+    in step: components of zip(A, B), enumerate(X) / enumerate(zip(..)), X[position] with position the loop's own index
+    (range(0, n) element, enumerate index, position marker); None when `t` is nothing of the kind"""
+    e = elem(L)
+    src = L[3]
+
+    def of(x, seq):
+        if x == e:
+            return seq
+        if isinstance(x, tuple) and len(x) == 3 and x[0] == "idx" and is_const(x[2]):
+            inner = of(x[1], seq)
+            if isinstance(inner, tuple) and inner and inner[0] == "call" and inner[1] == "zip" \
+                    and isinstance(x[2][1], int) and x[2][1] < len(inner[2]):
+                return inner[2][x[2][1]]
+            if isinstance(inner, tuple) and inner and inner[0] == "call" and inner[1] == "enumerate" and x[2] == K(1):
+                return inner[2][0]
+        return None
+    got = of(t, src)
+    if got is not None and got is not src:
+        return got
+    if isinstance(t, tuple) and len(t) == 3 and t[0] == "idx":
+        position = t[2]
+        at_pos = position == ("pos", L) or (src[0] == "range" and len(src) == 3 and same_int(position, sub(e, src[1]))) \
+            or (src[0] == "call" and src[1] == "enumerate" and position == ("idx", e, K(0)))
+        if at_pos:
+            return t[1]
+    return None
